@@ -132,9 +132,12 @@ def build(cfg, prof, bins, instr="native"):
     elif instr == "cov":
         cmd.append("+nightly")
         rustflags += " -Cinstrument-coverage"
+    if prof == "relnative":
+        # optimised for the host CPU: code behind cfg(target_feature = ...) (bmi1, lzcnt, avx2 ...) only exists in such builds
+        rustflags += " -C target-cpu=native"
     env["RUSTFLAGS"] = rustflags
     cmd += ["build", "--offline", "--quiet", "--manifest-path", os.path.join(HARNESS, "Cargo.toml"), "--target-dir", tdir]
-    cmd += ["--release"] if prof == "rel" else ["--profile", "chk"]
+    cmd += ["--release"] if prof in ("rel", "relnative") else ["--profile", "chk"]
     if FEATURES[cfg]:
         cmd += ["--features", FEATURES[cfg]]
     for b in bins:
@@ -143,7 +146,7 @@ def build(cfg, prof, bins, instr="native"):
     p = subprocess.run(cmd, env=env, stdout=subprocess.PIPE, stderr=subprocess.STDOUT, text=True)
     if p.returncode != 0:
         raise BuildError("build failed for %s/%s/%s %s:\n%s" % (cfg, prof, instr, bins, tail(p.stdout, 40)))
-    sub = "release" if prof == "rel" else "chk"
+    sub = "release" if prof in ("rel", "relnative") else "chk"
     out = os.path.join(tdir, "x86_64-unknown-linux-gnu", sub) if target else os.path.join(tdir, sub)
     _built[key] = out
     return out
